@@ -77,17 +77,17 @@ def cases(seed, quick):
         for t in ts:
             out.append({"kind": name, "bits": bits, "signed": signed, "text": list(t), "s": t, "variant": "plain", "shape": "single"})
             if t[0] in "+-" and not t[1:2] in ("+", "-", ""):
-                out.append({"kind": name, "bits": bits, "signed": signed, "text": list(t), "s": t, "variant": "plain", "shape": "joined"})
+                out.append({"kind": name, "bits": bits, "signed": signed, "text": list(t), "s": t, "variant": rng.choice(["plain", "plain", "ptr", "named", "ptrnamed"]), "shape": "joined"})
             r = rng.random()
             if r < 0.25:
-                out.append({"kind": name, "bits": bits, "signed": signed, "text": list(t), "s": t, "variant": rng.choice(["ptr", "named", "slice"]), "shape": "single"})
+                out.append({"kind": name, "bits": bits, "signed": signed, "text": list(t), "s": t, "variant": rng.choice(["ptr", "named", "slice", "slicegrp", "ptrnamed"]), "shape": "single"})
     fl = []
     for k in FLOATS:
         for t in FLOAT_TEXTS:
-            for var in ("plain", "ptr", "named", "slice"):
+            for var in ("plain", "ptr", "named", "slice", "slicegrp", "ptrnamed"):
                 if var != "plain" and rng.random() < 0.6:
                     continue
                 fl.append({"kind": k, "bits": 32 if k == "float32" else 64, "signed": True, "text": list(t), "s": t, "variant": var, "shape": "single"})
             if t[0] in "+-" and t[1:2] not in ("+", "-", ""):
-                fl.append({"kind": k, "bits": 32 if k == "float32" else 64, "signed": True, "text": list(t), "s": t, "variant": "plain", "shape": "joined"})
+                fl.append({"kind": k, "bits": 32 if k == "float32" else 64, "signed": True, "text": list(t), "s": t, "variant": rng.choice(["plain", "ptr", "named"]), "shape": "joined"})
     return out, fl
